@@ -1,5 +1,6 @@
 import QP.Proofs.C07Main
 import QP.Proofs.C07Point
+import QP.Proofs.C07AAtomic
 /-!
 # C07: the induction over all supported templates
 -/
@@ -33,8 +34,26 @@ theorem claim : ∀ (pt : PT), supported pt = true → Claim pt
       simp only [supported] at h
       exact claim_timeReversal id body (claim body h)
   | .point id chans entries meas cons, _ => claim_point id chans entries meas cons
-  | .parallel .., h | .atomicMulti .., h | .arith .., h | .arithAtomic .., h => by
-      simp [supported] at h
+  | .parallel id body over, h => by
+      simp only [supported, Bool.and_eq_true, Bool.not_eq_true'] at h
+      exact claim_parallel id body over (claim body h.1) (invClaim body h.1) h.2
+  | .atomicMulti id subs dur meas cons, h => by
+      simp only [supported, Bool.and_eq_true, Bool.not_eq_true'] at h
+      exact claim_atomicMulti id subs dur meas cons
+        (fun p hp => ⟨claimAll subs h.1 p hp, invClaimAll subs h.1 p hp⟩) h.2
+  | .arith id body op scalar ptIsLhs, h => by
+      simp only [supported, Bool.and_eq_true, Bool.not_eq_true'] at h
+      refine claim_arith id body op scalar ptIsLhs (claim body h.1.1) (invClaim body h.1.1) (presClaim body h.1.1) ?_
+      have h2 := h.2
+      cases scalar with
+      | uniform e => exact True.intro
+      | perChan m =>
+        simp only [Bool.and_eq_true, Bool.not_eq_true', List.all_eq_true] at h2
+        exact ⟨h2.1, fun x hx => by simpa using h2.2 x hx⟩
+  | .arithAtomic id lhs minus rhs meas, h => by
+      simp only [supported, Bool.and_eq_true] at h
+      exact claim_arithAtomic id lhs minus rhs meas (claim lhs h.1) (claim rhs h.2)
+        (invClaim lhs h.1) (invClaim rhs h.2)
 theorem claimAll : ∀ (subs : List PT), supportedAll subs = true → ∀ p ∈ subs, Claim p
   | [], _ => fun p hp => nomatch hp
   | q :: qs, h => by
